@@ -46,7 +46,13 @@ ASSUMPTIONS = [
     "names are ASCII (non-ASCII case folding is out of scope)",
     "the documented mapping of the Lean theorems is docs/en/perception/label.md of the working tree (PEval.Gen.doc*, re-parsed on every "
     "run); for the traffic-light family they are stated modulo the rows `red_left_straight` / `red_right_straight` on which document "
-    "and code disagree in the unchanged tree (PEval.C14.docExceptions*, theorem doc_exceptions_exact: finding candidate C14-D1)",
+    "and code disagree in the unchanged tree (PEval.C14.docExceptions*: finding candidate C14-D1). Theorem doc_exceptions_exact "
+    "pins those rows to `name unregistered -> UNKNOWN` OR `the documented label`, so repairing the discrepancy on either side keeps "
+    "it true; which of the two holds in this run is recorded in the branch histogram (`doc:C14-D1:*`)",
+    "no claim (oracle) / counted skip (correspondence) outside the quantifier: label prefixes other than autoware / traffic_light "
+    "(whether and how the constructor refuses them) and None / empty target lists (what a list without names stands for)",
+    "the registration table is read through the public LabelConverter.label_infos; when that attribute is absent the clauses "
+    "`unregistered -> UNKNOWN` and `canonical name` are not evaluated for the case (branch `unobservable:label_infos`)",
     "AutowareLabel.ANIMAL and TrafficLightLabel.TRAFFIC_LIGHT under classification are produced by no name: the canonical-name law is vacuous for them (DESIGN B4)",
 ]
 
@@ -146,7 +152,7 @@ def generate(rng, tier):
         names = [li.name for li in conv.label_infos]
         enum_vals = [m.value for m in conv.label_type]
         strings = []
-        for n in names + enum_vals + list(DOC_NAME2LABEL):
+        for n in names + enum_vals + list(DOC_NAME2LABEL) + list(D1_NAMES):
             strings.extend(_variants(n))
         for _ in range(60 if tier == "quick" else 600):
             strings.append("".join(rng.choice(alphabet) for _ in range(rng.randint(0, 14))))
@@ -176,16 +182,56 @@ def generate(rng, tier):
     return cases
 
 
+class HarnessSetupError(RuntimeError):
+    """raised by harness code (never from inside the library): run_check files it as an infrastructure error"""
+
+
+def _table_of(conv):
+    """the registration table of a converter through its PUBLIC attribute `label_infos` (same source as `generate` and the
+    translator harness/gen_tables.py); None when the attribute is not there (then the clauses that need the table are
+    dropped for the case and counted as `unobservable:label_infos`)"""
+    infos = getattr(conv, "label_infos", None)
+    if infos is None:
+        return None
+    try:
+        return [[li.label.name, li.name] for li in infos]
+    except AttributeError:
+        return None
+
+
+_CFG_BASE = {
+    "max_x_position": 100.0, "max_y_position": 100.0, "min_point_numbers": 0,
+    "center_distance_thresholds": [1.0], "plane_distance_thresholds": [2.0],
+    "iou_2d_thresholds": [0.5], "iou_3d_thresholds": [0.5],
+}
+
+
+def _build_config(ET, case, targets):
+    from perception_eval.config import PerceptionEvaluationConfig
+
+    d = dict(_CFG_BASE, evaluation_task=ET[case["task"]].value, target_labels=list(targets),
+             label_prefix="autoware", merge_similar_labels=case["merge"])
+    return PerceptionEvaluationConfig(dataset_paths=["x"], frame_id="base_link",
+                                      result_root_directory=tempfile.mkdtemp(prefix="c14_"),
+                                      evaluation_config_dict=d)
+
+
 def run_impl(case):
+    """`out["err"]` is produced only by the calls the property is about (LabelConverter of a supported family / convert_label /
+    convert_name / set_target_lists / the evaluation config resolving the case's target names); everything else propagates
+    (run_check: harness error = infrastructure, unexpected library error = reported by run_check itself)"""
     lb, ET = _mods()
     k = case["kind"]
-    try:
-        if k == "ctor":
+    if k == "ctor":
+        try:
             _converter(case)
-            return {"ok": True}
-        if k == "convert":
+        except Exception as e:
+            return {"err": type(e).__name__}
+        return {"ok": True}
+    if k == "convert":
+        s = case["s"]
+        try:
             c = _converter(case)
-            s = case["s"]
             lab = c.convert_label(s)
             out = {"label": lab.label.name, "name_label": c.convert_name(s).name,
                    "family": type(lab.label).__name__, "kept_name": lab.name == s}
@@ -194,37 +240,42 @@ def run_impl(case):
             if case["prefix"] == "autoware":
                 other = lb.LabelConverter(ET[case["task"]], not case["merge"], "autoware")
                 out["other_merge"] = other.convert_label(s).label.name
-            return out
-        if k == "targets":
+        except Exception as e:
+            return {"err": type(e).__name__}
+        out["table"] = _table_of(c)
+        out["members"] = {m.value: m.name for m in (lb.AutowareLabel if case["prefix"] == "autoware" else lb.TrafficLightLabel)}
+        return out
+    if k == "targets":
+        try:
             c = _converter(case)
             res = lb.set_target_lists(case["targets"], c)
             out = {"labels": [l.name for l in res]}
             if case["targets"]:
                 out["by_convert_label"] = [c.convert_label(n).label.name for n in case["targets"]]
-            return out
-        if k == "config_targets":
-            from perception_eval.config import PerceptionEvaluationConfig
+        except Exception as e:
+            return {"err": type(e).__name__}
+        return out
+    if k == "config_targets":
+        import shutil
 
-            d = {
-                "evaluation_task": ET[case["task"]].value, "target_labels": case["targets"],
-                "max_x_position": 100.0, "max_y_position": 100.0, "min_point_numbers": 0,
-                "label_prefix": "autoware", "merge_similar_labels": case["merge"],
-                "center_distance_thresholds": [1.0], "plane_distance_thresholds": [2.0],
-                "iou_2d_thresholds": [0.5], "iou_3d_thresholds": [0.5],
-            }
-            cfg = PerceptionEvaluationConfig(dataset_paths=["x"], frame_id="base_link",
-                                             result_root_directory=tempfile.mkdtemp(prefix="c14_"),
-                                             evaluation_config_dict=d)
+        # set-up probe: the same configuration with one plain canonical name. If THIS cannot be built the harness's
+        # reference dictionary no longer fits the configuration API: a harness problem, not a statement about name conversion
+        try:
+            ref = _build_config(ET, case, ["car"])
+        except Exception as e:
+            raise HarnessSetupError(f"PerceptionEvaluationConfig cannot be built with the harness's reference dictionary: {e!r}")
+        shutil.rmtree(ref.result_root_directory, ignore_errors=True)
+        try:
+            cfg = _build_config(ET, case, case["targets"])
             out = {"labels": [l.name for l in cfg.target_labels],
-                   "by_convert_label": [cfg.label_converter.convert_label(n).label.name for n in case["targets"]],
-                   "n_lists": {kk: len(v) for kk, v in cfg.filtering_params.items()
-                               if isinstance(v, list) and kk.endswith("_list")}}
-            import shutil
-
-            shutil.rmtree(cfg.result_root_directory, ignore_errors=True)
-            return out
-    except Exception as e:
-        return {"err": type(e).__name__}
+                   "by_convert_label": [cfg.label_converter.convert_label(n).label.name for n in case["targets"]]}
+        except Exception as e:
+            return {"err": type(e).__name__}
+        fp = getattr(cfg, "filtering_params", None)
+        out["n_lists"] = ({kk: len(v) for kk, v in fp.items() if isinstance(v, list) and kk.endswith("_list")}
+                          if isinstance(fp, dict) else None)
+        shutil.rmtree(cfg.result_root_directory, ignore_errors=True)
+        return out
     raise ValueError(k)
 
 
@@ -241,15 +292,29 @@ def model_requests(case, out):
 def compare(case, out, resps):
     r = resps[0]
     k = case["kind"]
-    if "err" in out or "err" in r:
-        return None if out.get("err") == r.get("err") else f"impl {out} != model {r}"
     if k == "ctor":
-        return None
+        # an unsupported prefix is outside the quantifier ("both label families"): whether and with which exception class the
+        # constructor refuses it is not the property's business -- agreement is recorded, a difference is a counted skip
+        same = ("err" in out) == ("err" in r) and out.get("err") == r.get("err")
+        return None if same else "skip"
+    if not case.get("targets") and k in ("targets", "config_targets"):
+        # None / [] target list: the text ("target-label lists are resolved with the same mapping") says nothing about a list
+        # without names; the model follows today's code (all members), a difference is a counted skip
+        same = ("err" not in out) and ("err" not in r) and out.get("labels") == r.get("labels")
+        return None if same else "skip"
+    if "err" in out or "err" in r:
+        # "converting a label name never fails": raised vs returned (the model never fails inside the quantifier)
+        if ("err" in out) == ("err" in r):
+            return None
+        return f"impl {out} != model {r}"
     if k == "convert":
         a = (out["label"], out["name_label"])
         b = (r["label"], r["name_label"])
         return None if a == b else f"impl {a} != model {b}"
     return None if out["labels"] == r["labels"] else f"impl {out['labels']} != model {r['labels']}"
+
+
+DOC_D1 = {"red_left_straight": "RED_LEFT_STRAIGHT", "red_right_straight": "RED_RIGHT_STRAIGHT"}
 
 
 def _tl_documented(name: str, classification: bool):
@@ -261,6 +326,9 @@ def _tl_documented(name: str, classification: bool):
         n = n[len("crosswalk_"):]
     key = n.replace("_", "")
     if key not in vals:
+        if name in DOC_D1:  # docs/en/perception/label.md rows of finding candidate C14-D1 (frozen copy): once the code registers
+            # these names they must give the documented label (unregistered -> UNKNOWN is judged by the caller)
+            return DOC_D1[name] if classification else "TRAFFIC_LIGHT"
         return None
     lab = vals[key]
     if classification or lab in ("UNKNOWN", "FP"):
@@ -271,10 +339,18 @@ def _tl_documented(name: str, classification: bool):
 def oracle(case, out):
     lb, ET = _mods()
     k = case["kind"]
+    if out.get("unexpected"):  # run_check reports these itself; kept total for older runners
+        return f"the real code raised {out.get('err')} unexpectedly on {case}"
     if k == "ctor":
-        want = "NotImplementedError" if case["prefix"] in ("blinker", "brake_lamp") else "ValueError"
-        return None if out.get("err") == want else f"LabelConverter(prefix={case['prefix']!r}) -> {out}, expected {want}"
+        # NO CLAIM.  Quantifier: "both label families" -- a prefix that is neither `autoware` nor `traffic_light` is outside it;
+        # whether the constructor refuses it, and with which exception class, is not stated (a new family may be implemented)
+        return None
+    if not case.get("targets") and k in ("targets", "config_targets"):
+        # NO CLAIM.  "Target-label lists are resolved with the same mapping": a None / empty list holds no name to resolve;
+        # what it stands for (today: every member of the family) is not stated by the property
+        return None
     if "err" in out:
+        # "Converting a label name never fails"
         return f"conversion failed with {out['err']} on {case}"
     task = ET[case["task"]]
     if k == "convert":
@@ -288,13 +364,15 @@ def oracle(case, out):
         for v, l in out["variants"].items():
             if l != lab:
                 return f"case variant {v!r} -> {l} but {s!r} -> {lab}"
+        # "object-label and target-list entry points ... resolved with the same mapping"
         if out["name_label"] != lab:
             return f"convert_name({s!r}) = {out['name_label']} differs from convert_label = {lab}"
-        # live table (what is registered now)
-        table = lb._get_autoware_pairs(case["merge"]) if case["prefix"] == "autoware" else lb._get_traffic_light_paris(task)
-        registered = {n for _, n in table}
+        # live table (what is registered now), through the public `label_infos`; None = not observable in this tree
+        table = out.get("table")
+        registered = None if table is None else {n for _, n in table}
         low = s.lower()
-        if low not in registered:
+        if registered is not None and low not in registered:
+            # "unregistered names map to unknown"
             if lab != "UNKNOWN":
                 return f"unregistered name {s!r} -> {lab}, expected UNKNOWN"
         # documented label of registered names
@@ -302,7 +380,7 @@ def oracle(case, out):
             doc = DOC_NAME2LABEL.get(low)
             if doc is not None:
                 want = MERGE.get(doc, doc) if case["merge"] else doc
-                if low in registered or doc != "UNKNOWN":
+                if (registered is not None and low in registered) or doc != "UNKNOWN":
                     if lab != want:
                         return f"{s!r} is documented as {want} (merge={case['merge']}) but converts to {lab}"
             # merging = merged image of no merging
@@ -310,39 +388,52 @@ def oracle(case, out):
             if a != MERGE.get(b, b):
                 return f"{s!r}: merged result {a} is not the merged image of the unmerged result {b}"
         else:
-            if low in registered:
+            if registered is not None and low in registered:
                 want = _tl_documented(low, task == ET.CLASSIFICATION2D)
                 if want is not None and lab != want:
                     return f"traffic-light name {s!r} should give {want} for task {task.value}, got {lab}"
         # canonical name of every producible label
-        produced = {l.name for l, _ in table}
-        byval = {m.value: m.name for m in (lb.AutowareLabel if case["prefix"] == "autoware" else lb.TrafficLightLabel)}
-        if low in byval and byval[low] in produced and s == low:
-            if lab != byval[low]:
-                return f"canonical name {s!r} of producible label {byval[low]} converts to {lab}"
+        if table is not None:
+            produced = {l for l, _ in table}
+            byval = out["members"]
+            if low in byval and byval[low] in produced and s == low:
+                if lab != byval[low]:
+                    return f"canonical name {s!r} of producible label {byval[low]} converts to {lab}"
         return None
     # target lists resolved with the same mapping as object labels
-    if case["targets"]:
-        if out["labels"] != out["by_convert_label"]:
-            return f"target list {case['targets']} resolved to {out['labels']} but objects would get {out['by_convert_label']}"
-        if k == "config_targets":
-            bad = {kk: n for kk, n in out["n_lists"].items() if n != len(case["targets"])}
-            if bad:
-                return f"per-label lists {bad} do not line up with {len(case['targets'])} target labels"
-    else:
-        fam = lb.AutowareLabel if case["prefix"] == "autoware" else lb.TrafficLightLabel
-        if out["labels"] != [m.name for m in fam]:
-            return f"empty target list should give all labels, got {out['labels']}"
+    if out["labels"] != out["by_convert_label"]:
+        return f"target list {case['targets']} resolved to {out['labels']} but objects would get {out['by_convert_label']}"
+    if k == "config_targets" and out.get("n_lists") is not None:
+        # "so the per-label thresholds of a configuration line up with the labels objects receive"
+        bad = {kk: n for kk, n in out["n_lists"].items() if n != len(case["targets"])}
+        if bad:
+            return f"per-label lists {bad} do not line up with {len(case['targets'])} target labels"
     return None
+
+
+D1_NAMES = ("red_left_straight", "red_right_straight")  # finding candidate C14-D1 (documentation vs code)
 
 
 def branches(case, out):
     k = case["kind"]
+    if out.get("unexpected"):
+        return [f"{k}:unexpected:{out.get('err')}"]
     if "err" in out:
         return [f"{k}:err:{out['err']}"]
+    if k == "ctor":
+        return ["ctor:accepted"]
     if k == "convert":
-        return [f"convert:{case['prefix']}:{'merge' if case['merge'] else 'plain'}:{'unknown' if out['label'] == 'UNKNOWN' else 'hit'}"]
-    return [f"{k}:{case['prefix']}:{'none' if not case.get('targets') else 'list'}"]
+        br = [f"convert:{case['prefix']}:{'merge' if case['merge'] else 'plain'}:{'unknown' if out['label'] == 'UNKNOWN' else 'hit'}"]
+        if out.get("table") is None:
+            br.append("unobservable:label_infos")
+        elif case["prefix"] == "traffic_light" and case["s"] in D1_NAMES:
+            reg = case["s"] in {n for _, n in out["table"]}
+            br.append("doc:C14-D1:" + ("registered->" + out["label"] if reg else "unregistered->" + out["label"]))
+        return br
+    br = [f"{k}:{case['prefix']}:{'none' if not case.get('targets') else 'list'}"]
+    if k == "config_targets" and out.get("n_lists") is None:
+        br.append("unobservable:filtering_params")
+    return br
 
 
 def search(rng, st, disagreements):
